@@ -22,8 +22,8 @@ inline bool has_overhead(int k) { return k >= K_HASHHF; }
 static const int N_CLASSES = 6;  // quick; class 6 exists in thorough
 // class 7 ("scale" stages): more than 2^17 strings, mostly more than 2^16 buckets and a text of 1-4 MB, so that 16-bit
 // quantities overflow and every buffer is reallocated with the default MEMALLOC
-// class 8 ("hugelcp" stages): 2-6 strings of 16-50 KB sharing a prefix whose length sits around the 2^14 / 2^15
-// boundaries of the variable-byte code (plus a few short strings)
+// class 8 ("hugelcp" stages): 2-6 strings of 16-70 KB sharing a prefix whose length sits around the 2^14 / 2^15 /
+// 2^16 boundaries (variable-byte code, 16-bit lengths), plus a few short strings
 static const int n_lo[9] = {1, 2, 3, 9, 65, 601, 3001, 140000, 2};
 static const int n_hi[9] = {1, 2, 8, 64, 600, 3000, 12000, 280000, 6};
 
@@ -306,9 +306,10 @@ inline std::vector<std::string> gen_strings(Src &s, int nclass, bool thorough, G
       break;
     }
     case 10: {  // shared prefixes around 2^14 and 2^15 bytes
-      static const size_t base[] = {16384, 16383, 16385, 16500, 16511, 16512, 32768, 32767, 32800, 20000, 49152, 16384 + 127};
-      size_t pl = base[ps.below(12)];
+      static const size_t base[] = {16384, 16383, 16385, 16500, 16511, 16512, 32768, 32767, 32800, 20000, 49152, 16384 + 127, 65535, 65536, 65600, 70000};
+      size_t pl = base[ps.below(16)];
       if (ps.below(4) == 0) pl += ps.below(300);
+      if (pl > 60000 && n > 3) n = 3;
       XorShift x(seed ^ 0x1c9);
       std::string pre;
       for (size_t q = 0; q < pl; q++) pre += (char)A[x.below(asize)];
